@@ -8,7 +8,7 @@ import math
 import torch
 
 from .aggsym_common import (EPS, F64, NORM_EPS, PE_NORM, ROSTER, Acc, build, call, cond_of, fmt, int_kernel,
-                            ld, maxdiff, mgda_gap, norm_eps_side, rat_vec_equal, ref_of, seed_of)
+                            ld, maxdiff, mgda_gap, norm_eps_side, rat_vec_equal, ref_of, scaled_sides, seed_of)
 
 REG_LADDER = [1e-2, 1e-4, 1e-6, 1e-8, 1e-10, 1e-12]
 NORM_VARIANTS = [1e-4, 1e-2, 1e-6]
@@ -254,7 +254,9 @@ def eval_scale(job: dict):
     only = job.get("only")
     s0 = scns[0]
     cls, m = s0["cls"], s0["m"]
-    for e in scales:
+    # scales at which ONLY the UPGrad ladder is run (they put norm_eps between the rows of diag(c) J)
+    ladder_only = [e for e in job.get("ladder_scales", []) if e not in scales]
+    for e in list(scales) + ladder_only:
         for s in scns:
             a, b, c1, c2 = s["a"], s["b"], s["c1"], s["c2"]
             xc = [a * u + b * v for u, v in zip(c1, c2)]
@@ -265,7 +267,7 @@ def eval_scale(job: dict):
             seed = seed_of(seed0, s["id"], e % 97)
             nontrivial = c1 != c2 and (len(set(c1)) > 1 or len(set(c2)) > 1) and not cls["conflictFree"]
             for r in ROSTER:
-                if not r["lin"]:
+                if not r["lin"] or e in ladder_only:
                     continue
                 for vname, extra, _, _ in variants(r, s):
                     if only and vname != only:
@@ -303,7 +305,7 @@ def eval_scale(job: dict):
                             _report(acc, pid, vname, s, e, gkey, "relation",
                                     f"{vname}: not linear under scaling on instance {s['id']} ({gkey}, scale 2^{e}): "
                                     f"|A(xJ) - aA(c1J) - bA(c2J)| = {d:.3e} > allowance {tol:.3e}", {"seed": seed, "diff": d})
-            if nontrivial:
+            if nontrivial and e not in ladder_only:
                 acc.nontriv.append((s["id"], gkey))
             # ---- UPGrad over the reg_eps ladder
             if only and not only.startswith("UPGrad"):
@@ -312,10 +314,18 @@ def eval_scale(job: dict):
             hsel = (s["id"] + sum(c1) + 3 * sum(c2) + a + 2 * b) % 2
             for ne in [NORM_VARIANTS[0], NORM_VARIANTS[1 + hsel]]:
                 pref = s["P"] if (s["id"] + a + b) % 2 == 0 else None
-                sides = [norm_eps_side(cls, e, ne, float(min(c)) ** 2, float(max(c)) ** 2) for c in (xc, c1, c2)]
+                # sigma_max of each of the three matrices against norm_eps, bracketed by the squared row norms
+                # c_i^2 |g_i|^2 (exact, spec RowBracket); `small`: a non-zero singular value certified BELOW norm_eps
+                ss = [scaled_sides(cls, s["gd"], c, e, ne) for c in (xc, c1, c2)]
+                sides = [x[0] for x in ss]
                 if "ambiguous" in sides or len(set(sides)) > 1:
                     acc.count("skipped:upgrad_norm_eps_threshold_not_uniform")
                     continue
+                straddle = sides[0] == "above" and any(x[1] for x in ss)
+                if straddle:
+                    acc.count("ladder_triples_with_singular_values_on_both_sides_of_norm_eps")
+                    if ne == NORM_VARIANTS[0]:
+                        acc.count("ladder_triples_straddling_the_default_norm_eps")
                 # |v0| of the UNREGULARISED projection, needed by the derived bound (see module doc of c09):
                 # for diag(c) J the row-i projection weights are  c_i u_i D^-1 z0(e_i),  z0(e_i) = weights of the
                 # projection of row i of the well-scaled integer base matrix (oracle: reg_eps -> 0 there)
@@ -357,7 +367,7 @@ def eval_scale(job: dict):
                                 {"seed": seed, "defect": d, "bound": bound})
                     prev = d
                 if sides[0] == "above" and not cls["conflictFree"]:
-                    acc.nontriv.append((s["id"], gkey, "ladder", ne))
+                    acc.nontriv.append((s["id"], gkey, "ladder", ne) + ((e, "straddle") if straddle else ()))
     return acc.as_tuple()
 
 
